@@ -20,9 +20,15 @@ func P(cls, tag int, content []byte) *N { return &N{Cls: cls, Tag: tag, Content:
 func C(cls, tag int, kids ...*N) *N     { return &N{Cls: cls, Tag: tag, Cons: true, Kids: kids} }
 func Oct(s string) *N                   { return P(0, 4, []byte(s)) }
 func Int(tag int, v int64) *N           { return P(0, tag, encInt(v)) }
-func Bool(b bool) *N {
+func Bool(b bool) *N                    { return BoolT(0xff, b) }
+
+// BoolT encodes TRUE with the given non-zero octet: BER allows any, DER says 0xff, asn1-ber (go-ldap) writes 0x01.
+func BoolT(tt byte, b bool) *N {
 	if b {
-		return P(0, 1, []byte{0xff})
+		if tt == 0 {
+			tt = 0xff
+		}
+		return P(0, 1, []byte{tt})
 	}
 	return P(0, 1, []byte{0})
 }
